@@ -75,10 +75,33 @@ def direct_ratio(kind, comps, qs, f, text, check_density=True):
     """component masses (volumes) in the ratio of the quantities; density = mass / volume"""
     parts = [formula(c) for c in comps]
     keysets = [set(atom_key(a) for a in p.atoms) for p in parts]
-    for i in range(len(parts)):
-        for j in range(i + 1, len(parts)):
-            if keysets[i] & keysets[j]:
-                return
+    shared = any(keysets[i] & keysets[j] for i in range(len(parts)) for j in range(i + 1, len(parts)))
+    if shared:
+        # components with atoms in common (the same compound at two densities, ...): the stated quantities still fix the
+        # whole composition, sum_i n_i x atoms_i with n_i = q_i / M_i (by weight) or q_i rho_i / M_i (by volume), and
+        # the density, sum q / sum (q_i / rho_i) or sum q_i rho_i / sum q_i
+        pos = [(q, p) for q, p in zip(qs, parts) if q > 0]
+        if not pos or (kind != "weight" and not all(p.density for _, p in pos)):
+            return
+        expect = {}
+        for q, p in pos:
+            n_i = q / p.mass if kind == "weight" else q * p.density / p.mass
+            for a, c in p.atoms.items():
+                expect[atom_key(a)] = expect.get(atom_key(a), 0.0) + n_i * c
+        got = atom_mass(f.structure, {})
+        k0 = max(expect, key=lambda k: expect[k])
+        if set(k for k, v in got.items() if v) != set(k for k, v in expect.items() if v) or \
+                any(not rel(got.get(k, 0) * expect[k0], expect[k] * got.get(k0, 0), 1e-9) for k in expect):
+            fails.append(dict(signature="C11:%s-ratio" % kind, what="%s: the atoms are not those of the components in the requested %s ratio "
+                              "(components share atoms; composition %r, expected proportional to %r)" % (text, kind, got, expect), input=text))
+            return
+        if check_density and all(p.density for _, p in pos):
+            rho = (sum(q for q, _ in pos) / sum(q / p.density for q, p in pos)) if kind == "weight" else \
+                (sum(q * p.density for q, p in pos) / sum(q for q, _ in pos))
+            if f.density is None or not rel(f.density, rho, 1e-9):
+                fails.append(dict(signature="C11:density-not-mass-over-volume", what="%s: density %r, total mass / total volume of the stated parts %r"
+                                  % (text, f.density, rho), input=text))
+        return
     total = atom_mass(f.structure, {})
     masses = []
     for p, ks in zip(parts, keysets):
